@@ -28,7 +28,12 @@ def tokenise_cat(stdout):
     fields = {}
     m = re.search(r'\(([0-9A-Fa-f]{2})\)', header[0] if header else '')
     fields['cycle'] = m.group(1).lower() if m else None
-    fields['title'] = (header[0][:m.start()] if m else (header[0] if header else '')).strip()
+    if m:
+        fields['title'] = header[0][:m.start()].strip()
+    else:
+        # no cycle number is shown (HDFS-flagged catalogues): the title is the first line minus the density words
+        # that the Acorn and Watford styles put on the same line
+        fields['title'] = re.sub(r'\s+(MFM|FM|Single density|Double density)\s*$', '', header[0] if header else '').strip()
     fields['density'] = 'double' if re.search(r'\bMFM\b|Double density', h) else ('single' if re.search(r'\bFM\b|Single density', h) else None)
     for key, rx in (('drive', r'Drive (\S+)'), ('option', r'Option (\d \(\w+\))'), ('dir', r'Dir(?:\.|ectory) (:\S+)'), ('lib', r'Lib(?:\.|rary) (:\S+)')):
         m = re.search(rx, h)
